@@ -75,86 +75,86 @@ func runC15(c *Ctx, r *Report) {
 	// R-C15.3 (over Iterator and its literals: the locked part may live in a closure)
 	nLookups := 0
 	for _, fx := range p.AllViews(it) {
-	okVars := map[types.Object]*ast.CallExpr{}
-	walkNoLit(fx.Body, func(n ast.Node) bool {
-		as, ok := n.(*ast.AssignStmt)
-		if !ok || len(as.Lhs) != 2 || len(as.Rhs) != 1 {
-			return true
-		}
-		call, ok := ast.Unparen(as.Rhs[0]).(*ast.CallExpr)
-		if !ok {
-			return true
-		}
-		cf := p.Callee(fx, call)
-		if cf == nil || cf.Name() != "Get" {
-			return true
-		}
-		if rv := cf.Type().(*types.Signature).Recv(); rv == nil || !isNamed(rv.Type(), p.pkgPath("iface"), "IPFSLogOrderedEntries") {
-			return true
-		}
-		if id, ok := as.Lhs[1].(*ast.Ident); ok && id.Name != "_" {
-			okVars[p.ObjOf(fx, id)] = call
-		}
-		return true
-	})
-	nLookups += len(okVars)
-	if len(okVars) == 0 {
-		continue
-	}
-	mf := &Flow{P: p, Fn: fx, May: true, Entry: Facts{}}
-	mf.Edge = func(cond ast.Expr, taken bool, f Facts) {
-		for _, a := range splitCond(cond, taken) {
-			if id, ok := ast.Unparen(a.E).(*ast.Ident); ok && !a.Truth {
-				if o := p.ObjOf(fx, id); okVars[o] != nil {
-					f["failed|"+p.ID(o)] = true
-				}
+		okVars := map[types.Object]*ast.CallExpr{}
+		walkNoLit(fx.Body, func(n ast.Node) bool {
+			as, ok := n.(*ast.AssignStmt)
+			if !ok || len(as.Lhs) != 2 || len(as.Rhs) != 1 {
+				return true
 			}
-		}
-		errCorr{p, fx, "failed|"}.edge(cond, taken, f)
-	}
-	ec := errCorr{p, fx, "failed|"}
-	mf.Node = func(n ast.Node, f Facts) {
-		for _, id := range assignedIdents(n) {
-			if o := p.ObjOf(fx, id); o != nil {
-				delete(f, "failed|"+p.ID(o))
+			call, ok := ast.Unparen(as.Rhs[0]).(*ast.CallExpr)
+			if !ok {
+				return true
 			}
-		}
-		ec.node(n, f)
-	}
-	mf.Run()
-	bad := map[types.Object]string{}
-	mf.Visit(func(_ *cfgBlk, n ast.Node, before Facts) {
-		// continuing to the traversal (or any send) after a failed lookup
-		walkNoLit(n, func(nd ast.Node) bool {
-			if call, ok := nd.(*ast.CallExpr); ok {
-				if cf := p.Callee(fx, call); cf != nil && cf.Name() == "traverse" {
-					for o := range okVars {
-						if before["failed|"+p.ID(o)] {
-							bad[o] = "the traversal at " + p.Pos(call.Pos())
-						}
-					}
-				}
+			cf := p.Callee(fx, call)
+			if cf == nil || cf.Name() != "Get" {
+				return true
+			}
+			if rv := cf.Type().(*types.Signature).Recv(); rv == nil || !isNamed(rv.Type(), p.pkgPath("iface"), "IPFSLogOrderedEntries") {
+				return true
+			}
+			if id, ok := as.Lhs[1].(*ast.Ident); ok && id.Name != "_" {
+				okVars[p.ObjOf(fx, id)] = call
 			}
 			return true
 		})
-	})
-	mf.Exits(func(_ *cfgBlk, ret *ast.ReturnStmt, at Facts) {
-		if ret == nil {
-			return
+		nLookups += len(okVars)
+		if len(okVars) == 0 {
+			continue
 		}
-		if isNil, hasErr := errResultIsNil(p, fx, ret); hasErr && isNil {
-			for o := range okVars {
-				if at["failed|"+p.ID(o)] {
-					bad[o] = "a success return at " + p.Pos(ret.Pos())
+		mf := &Flow{P: p, Fn: fx, May: true, Entry: Facts{}}
+		mf.Edge = func(cond ast.Expr, taken bool, f Facts) {
+			for _, a := range splitCond(cond, taken) {
+				if id, ok := ast.Unparen(a.E).(*ast.Ident); ok && !a.Truth {
+					if o := p.ObjOf(fx, id); okVars[o] != nil {
+						f["failed|"+p.ID(o)] = true
+					}
 				}
 			}
+			errCorr{p, fx, "failed|"}.edge(cond, taken, f)
 		}
-	})
-	for o, call := range okVars {
-		r.Check(bad[o] == "", "R-C15.3", r.Key("R-C15.3", fx, "lookup", types.ExprString(call.Args[0])), call.Pos(),
-			"a failed lookup leads only to error returns",
-			fmt.Sprintf("after this lookup fails control can reach %s: an unknown bound is silently ignored instead of reported", bad[o]))
-	}
+		ec := errCorr{p, fx, "failed|"}
+		mf.Node = func(n ast.Node, f Facts) {
+			for _, id := range assignedIdents(n) {
+				if o := p.ObjOf(fx, id); o != nil {
+					delete(f, "failed|"+p.ID(o))
+				}
+			}
+			ec.node(n, f)
+		}
+		mf.Run()
+		bad := map[types.Object]string{}
+		mf.Visit(func(_ *cfgBlk, n ast.Node, before Facts) {
+			// continuing to the traversal (or any send) after a failed lookup
+			walkNoLit(n, func(nd ast.Node) bool {
+				if call, ok := nd.(*ast.CallExpr); ok {
+					if cf := p.Callee(fx, call); cf != nil && cf.Name() == "traverse" {
+						for o := range okVars {
+							if before["failed|"+p.ID(o)] {
+								bad[o] = "the traversal at " + p.Pos(call.Pos())
+							}
+						}
+					}
+				}
+				return true
+			})
+		})
+		mf.Exits(func(_ *cfgBlk, ret *ast.ReturnStmt, at Facts) {
+			if ret == nil {
+				return
+			}
+			if isNil, hasErr := errResultIsNil(p, fx, ret); hasErr && isNil {
+				for o := range okVars {
+					if at["failed|"+p.ID(o)] {
+						bad[o] = "a success return at " + p.Pos(ret.Pos())
+					}
+				}
+			}
+		})
+		for o, call := range okVars {
+			r.Check(bad[o] == "", "R-C15.3", r.Key("R-C15.3", fx, "lookup", types.ExprString(call.Args[0])), call.Pos(),
+				"a failed lookup leads only to error returns",
+				fmt.Sprintf("after this lookup fails control can reach %s: an unknown bound is silently ignored instead of reported", bad[o]))
+		}
 	}
 	r.Floor("R-C15.3", "bound-hash lookups in Iterator", nLookups, 1)
 
@@ -164,50 +164,50 @@ func runC15(c *Ctx, r *Report) {
 	ltF, lteF := p.Field("iface", "IteratorOptions", "LT"), p.Field("iface", "IteratorOptions", "LTE")
 	nhs := 0
 	for _, fx := range p.AllViews(it) {
-	bf := &Flow{P: p, Fn: fx, May: true, Entry: Facts{}}
-	bf.Edge = func(cond ast.Expr, taken bool, f Facts) {
-		for _, a := range splitCond(cond, taken) {
-			if x, isNil, ok := nilTest(a); ok && !isNil {
-				if v, _ := p.FieldSel(fx, x); v == ltF || v == lteF {
-					f["boundGiven"] = true
+		bf := &Flow{P: p, Fn: fx, May: true, Entry: Facts{}}
+		bf.Edge = func(cond ast.Expr, taken bool, f Facts) {
+			for _, a := range splitCond(cond, taken) {
+				if x, isNil, ok := nilTest(a); ok && !isNil {
+					if v, _ := p.FieldSel(fx, x); v == ltF || v == lteF {
+						f["boundGiven"] = true
+					}
 				}
 			}
 		}
-	}
-	bf.Run()
-	bf.Visit(func(_ *cfgBlk, n ast.Node, before Facts) {
-		walkNoLit(n, func(nd ast.Node) bool {
-			as, ok := nd.(*ast.AssignStmt)
-			if !ok {
-				return true
-			}
-			for i, l := range as.Lhs {
-				id, ok := ast.Unparen(l).(*ast.Ident)
-				if !ok || i >= len(as.Rhs) {
-					continue
-				}
-				if sl, ok := p.TypeOf(fx, id).Underlying().(*types.Slice); !ok || !isNamed(sl.Elem(), p.pkgPath("iface"), "IPFSLogEntry") {
-					continue
-				}
-				mentionsHeads := false
-				ast.Inspect(as.Rhs[i], func(m ast.Node) bool {
-					if e, ok := m.(ast.Expr); ok {
-						if v, _ := p.FieldSel(fx, e); v == headsField {
-							mentionsHeads = true
-						}
-					}
+		bf.Run()
+		bf.Visit(func(_ *cfgBlk, n ast.Node, before Facts) {
+			walkNoLit(n, func(nd ast.Node) bool {
+				as, ok := nd.(*ast.AssignStmt)
+				if !ok {
 					return true
-				})
-				if !mentionsHeads {
-					continue
 				}
-				nhs++
-				r.Check(!before["boundGiven"], "R-C15.6", r.Key("R-C15.6", fx, "start-from-heads", id.Name), as.Pos(),
-					"the start set is taken from the heads only before/without an upper-bound option", "the start set is (re)assigned from the log's heads on a path where an LT/LTE bound was given: a bound that selects nothing (exclusive bound at a root entry, empty list) silently iterates the whole log instead")
-			}
-			return true
+				for i, l := range as.Lhs {
+					id, ok := ast.Unparen(l).(*ast.Ident)
+					if !ok || i >= len(as.Rhs) {
+						continue
+					}
+					if sl, ok := p.TypeOf(fx, id).Underlying().(*types.Slice); !ok || !isNamed(sl.Elem(), p.pkgPath("iface"), "IPFSLogEntry") {
+						continue
+					}
+					mentionsHeads := false
+					ast.Inspect(as.Rhs[i], func(m ast.Node) bool {
+						if e, ok := m.(ast.Expr); ok {
+							if v, _ := p.FieldSel(fx, e); v == headsField {
+								mentionsHeads = true
+							}
+						}
+						return true
+					})
+					if !mentionsHeads {
+						continue
+					}
+					nhs++
+					r.Check(!before["boundGiven"], "R-C15.6", r.Key("R-C15.6", fx, "start-from-heads", id.Name), as.Pos(),
+						"the start set is taken from the heads only before/without an upper-bound option", "the start set is (re)assigned from the log's heads on a path where an LT/LTE bound was given: a bound that selects nothing (exclusive bound at a root entry, empty list) silently iterates the whole log instead")
+				}
+				return true
+			})
 		})
-	})
 	}
 	r.Floor("R-C15.6", "assignments of the start set from the heads", nhs, 1)
 
